@@ -143,7 +143,69 @@ def monitor(script, c):
     return hits
 
 
+def replay_scenario(rng, k, tier, fixed=False):
+    """updates under which earlier packets stay authentic (same policy again, or MKI rotation {K1} -> {K1, K2}): packets accepted
+    before the update and delivered again afterwards are replays and must be refused, SRTP and SRTCP alike"""
+    wildcard = (not fixed) and rng.random() < 0.4
+    ssrc = 0xcafebabe if fixed else rng.randrange(2, 1 << 32)
+    mki = (not fixed) and rng.random() < 0.5
+    k1, k2 = rand_key(rng, 30), rand_key(rng, 30)
+    def pol(ssrc_type, keys):
+        p = default_policy(rng, 0 if wildcard else ssrc, ssrc_type=ssrc_type, window=128 if fixed else rng.choice([64, 128, 1024]))
+        if mki:
+            p.keys = keys; p.use_mki = True; p.mki_size = 2; p.use_key_field = False
+        else:
+            p.keys = [(k1, b"")]
+        return p
+    st, rt = (SSRC_ANY_OUT, SSRC_ANY_IN) if wildcard else (SSRC_SPECIFIC, SSRC_SPECIFIC)
+    keys1 = [(k1, b"\x01\x01")]
+    keys2 = [(k1, b"\x01\x01"), (k2, b"\x02\x02")]
+    L = [pol(st, keys1).line(1), pol(rt, keys1).line(2), "create 1 1", "create 2 2"]
+    seq = 1 if fixed else rng.choice([1, 65530, 3000])
+    rtp_lines, rtcp_lines = [], []
+    for i in range(5 if fixed else rng.choice([3, 8, 20])):
+        pkt = rtp_packet(ssrc, seq & 0xffff, payload=bytes([i] * 8)); seq += 1
+        L.append(pkt_op("protect", 1, pkt, cap=len(pkt) + 40)); a = len(L); rtp_lines.append(a)
+        L.append(pkt_op("unprotect", 2, f"@{a:x}", cap=len(pkt) + 40))
+        rp = rtcp_packet(ssrc, bytes([i] * 8))
+        L.append(pkt_op("protect_rtcp", 1, rp, cap=len(rp) + 40)); a = len(L); rtcp_lines.append(a)
+        L.append(pkt_op("unprotect_rtcp", 2, f"@{a:x}", cap=len(rp) + 40))
+    # the update: same policy again, or one more key
+    L += [pol(st, keys2 if mki else keys1).line(4), pol(rt, keys2 if mki else keys1).line(5)]
+    upd = "update" if fixed or rng.random() < 0.5 else "stream_update"
+    L.append(f"{upd} 1 4"); L.append(f"{upd} 2 5")
+    some = rtp_lines if fixed else rng.sample(rtp_lines, min(3, len(rtp_lines)))
+    for a in some:
+        L.append(pkt_op("unprotect", 2, f"@{a:x}", cap=100)); L.append(f"# rep rtp {a:x}")
+    for a in (rtcp_lines if fixed else rng.sample(rtcp_lines, min(3, len(rtcp_lines)))):
+        L.append(pkt_op("unprotect_rtcp", 2, f"@{a:x}", cap=100)); L.append(f"# rep rtcp {a:x}")
+    L += ["dealloc 1", "dealloc 2"]
+    return "\n".join(L) + "\n"
+
+
+def replay_monitor(script, c):
+    hits = []
+    sl = script.split("\n")
+    out = {int(l.split()[0]): l.split() for l in c if l.strip()}
+    upd_ok = all(len(out.get(i, [])) > 2 and out[i][2] == "0" for i, l in enumerate(sl, 1) if l.startswith(("update ", "stream_update ")))
+    for i, l in enumerate(sl, 1):
+        t = l.split()
+        if len(t) > 3 and t[0] == "#" and t[1] == "rep" and upd_ok:
+            o = out.get(i - 1, []); first = out.get(int(t[3], 16) + 1, [])
+            if len(o) > 2 and o[2] == "0" and len(first) > 2 and first[2] == "0":
+                kind = t[2]
+                if not any(h["signature"] == f"update-clears-{kind}-replay-window" for h in hits):
+                    hits.append({"what": f"a {'SRTP' if kind == 'rtp' else 'SRTCP'} packet accepted before a successful update is accepted again after it (replay across the update)",
+                                 "signature": f"update-clears-{kind}-replay-window", "detail": f"line {i-1}: second acceptance of the packet made at line {t[3]}"})
+    return hits
+
+
 def families(tier, seed):
     rng = random.Random(seed * 1000 + 15)
     n = 12 if tier == "quick" else 150
-    return [Family("rekey-histories", [(f"rekey-{k}", scenario(rng, k, tier)) for k in range(n)], monitor=monitor)]
+    rng2 = random.Random(seed * 1000 + 115)
+    # corpus first (seed independent): the known finding update-clears-rtp-replay-window
+    rep = [("corpus-update-replay", replay_scenario(random.Random(1515), 0, "quick", fixed=True))] + \
+          [(f"urep-{k}", replay_scenario(rng2, k, tier)) for k in range(8 if tier == "quick" else 100)]
+    return [Family("rekey-histories", [(f"rekey-{k}", scenario(rng, k, tier)) for k in range(n)], monitor=monitor),
+            Family("update-replays", rep, monitor=replay_monitor)]
